@@ -83,6 +83,12 @@ Iteration ==
          rx   == IF dist /\ x > prevX THEN k * sc.step ELSE x
          \* V = 4 fps and x, t in quarter feet / sixteenths: t16 = x4 along the whole lattice, also for interpolated points
          rt   == IF dist /\ x > prevX THEN prevT + ((t - prevT) * (rx - prevX)) \div (x - prevX) ELSE t
+         \* height (1/512 ft) and vertical velocity (1/256 ft/s) of the row: interpolated the same way (the ground advance
+         \* divides 8 quarter feet, so both divisions are exact)
+         pvy  == IF sc.grav = 1 /\ it > 0 THEN vy + 1 ELSE vy
+         itp  == dist /\ x > prevX
+         ry   == IF itp THEN prevY * 8 + ((y - prevY) * 8 * (rx - prevX)) \div (x - prevX) ELSE y * 8
+         rvy  == IF itp THEN pvy * 8 + ((vy - pvy) * 8 * (rx - prevX)) \div (x - prevX) ELSE vy * 8
          w2   == WindAt(sc.winds, x)
          dt   == Dt16(w2)
          vy2  == vy - (IF sc.grav = 1 THEN 1 ELSE 0)                 \* dt = 1/2 whenever gravity is on
@@ -91,8 +97,8 @@ Iteration ==
          t2   == t + dt
          viol == (IF sc.vel > 4 THEN {"Vel"} ELSE {}) \cup (IF y2 < sc.drop THEN {"Drop"} ELSE {}) \cup (IF y2 < sc.alt THEN {"Alt"} ELSE {})
      IN /\ ctl' = StepCtl(ctl, o, fl, k)
-        /\ rows' = (IF emit THEN Append(rows, [x |-> rx, t |-> rt, fl |-> fl, tAt |-> t, term |-> FALSE]) ELSE rows)
-                   \o (IF viol # {} THEN <<[x |-> x2, t |-> t2, fl |-> fl, tAt |-> t2, term |-> TRUE]>> ELSE <<>>)
+        /\ rows' = (IF emit THEN Append(rows, [x |-> rx, t |-> rt, fl |-> fl, tAt |-> t, term |-> FALSE, y |-> ry, vy |-> rvy]) ELSE rows)
+                   \o (IF viol # {} THEN <<[x |-> x2, t |-> t2, fl |-> fl, tAt |-> t2, term |-> TRUE, y |-> y2 * 8, vy |-> vy2 * 8]>> ELSE <<>>)
         /\ prevX' = x /\ prevT' = t /\ prevY' = y
         /\ x' = x2 /\ t' = t2 /\ vy' = vy2 /\ y' = y2 /\ it' = it + 1
         /\ IF viol # {} THEN status' = "RangeErr" /\ reason' = Verdict(viol) ELSE UNCHANGED <<status, reason>>
@@ -102,7 +108,7 @@ Finish ==
   /\ status = "Running" /\ ~Continue
   /\ status' = "Done"
   \* at least two rows: the state after the loop is appended when fewer were recorded
-  /\ rows' = IF Len(rows) < 2 THEN Append(rows, [x |-> x, t |-> t, fl |-> {}, tAt |-> t, term |-> FALSE]) ELSE rows
+  /\ rows' = IF Len(rows) < 2 THEN Append(rows, [x |-> x, t |-> t, fl |-> {}, tAt |-> t, term |-> FALSE, y |-> y * 8, vy |-> vy * 8]) ELSE rows
   /\ UNCHANGED <<sc, x, t, vy, y, it, ctl, reason, prevX, prevT, prevY>>
 
 Next == Iteration \/ Finish
@@ -121,4 +127,8 @@ L_C03_TimesIncrease == \A j \in 1..(Len(rows) - 1) : rows[j].t <= rows[j + 1].t
 L_C04_Verdict == status = "RangeErr" => (rows[Len(rows)].term /\ reason \in {"Vel", "Drop", "Alt"})
 L_C04_Terminates == <>(status # "Running")
 L_TwoRows == status # "Running" => Len(rows) >= 2
+\* without gravity every row lies at the muzzle height; with it the trajectory never rises and only sinks
+L_RowHeights == \A j \in DOMAIN rows : /\ rows[j].y <= -sc.sight * 8 /\ rows[j].vy <= 0
+                                       /\ (sc.grav = 0 => rows[j].y = -sc.sight * 8 /\ rows[j].vy = 0)
+                                       /\ (j > 1 => rows[j].y <= rows[j - 1].y)
 =============================================================================
